@@ -1301,7 +1301,7 @@ func runSession(w *hx.W, rng *rand.Rand, caps imap.CapSet, capsName string, enab
 
 func body(w *hx.W) {
 	rng := w.Rand("c03")
-	rounds := w.Pick(8, 200)
+	rounds := w.Pick(8, 80)
 	if w.Quick() && w.Shard < 4 {
 		rounds = 3 // these shards also run a long-lived session (below)
 	}
